@@ -19,7 +19,7 @@ class C18(ViewsCheck):
     def configs(self, ctx):
         if ctx.tier == "quick":
             return list(QUICK_CFGS) + ["avx2-14-O2+FASTOR_USE_VECTORISED_EXPR_ASSIGN"]
-        return ["%s-%s-O2" % (i, s) for i in ALL_ISAS for s in ("14", "17")] + ["%s-14-O2+FASTOR_USE_VECTORISED_EXPR_ASSIGN" % i for i in ("sse2", "avx2", "avx512")]
+        return ["%s-14-O2" % i for i in ALL_ISAS] + ["avx2-17-O2"] + ["%s-14-O2+FASTOR_USE_VECTORISED_EXPR_ASSIGN" % i for i in ("sse2", "avx2", "avx512")]
 
     def nontrivial(self, ev):
         if ev["e"] == "SliceWrite2":
